@@ -76,48 +76,37 @@ Print Assumptions c16_vec_drop_once.
 (* ------------------------------------------------------------------------------------------
    slotmap.rs (MetaSlotMap; SlotMap, FixedSizeSlotMap, RelocatableSlotMap share this code). *)
 
-(* The clause as the property states it -- the slot map returns what a finite map returns, for
-   all capacities -- is FALSE of the faithful model: SlotMap::new(0).insert(v) panics (the free
-   list head is 0 instead of INVALID), and get/contains with key >= capacity panic.  Both
-   reproduced on the real code through the harness and reported as candidate defects. *)
-Definition c16_slotmap_refines_map_full : Prop := sm_refines_map_full.
-Theorem c16_slotmap_refines_map_refuted : ~ c16_slotmap_refines_map_full.
-Proof. exact sm_refines_map_refuted. Qed.
-Print Assumptions c16_slotmap_refines_map_refuted.
-Theorem c16_slotmap_get_oob_witness :
-  snd (fst (sm_step (sm_new 1) (MGet 1))) = OP /\ snd (fst (smap_step false (smap_new 1) (MGet 1))) = OO None.
-Proof. exact sm_get_oob_witness. Qed.
-Print Assumptions c16_slotmap_get_oob_witness.
-
-(* Strongest true statement (partial): for every capacity and every operation sequence over
-   insert / insert_at / remove / get / contains / next_free_key / iteration / len / container
-   drop, the concrete representation (idx_to_data, doubly linked free list with head, data,
-   data_next_free_index ring queue, len) returns exactly what the finite-map reference returns
-   once the reference reproduces the two deviations above (smap_step true); drop logs agree as
-   multisets (they are equal lists except at container drop, whose order the reference leaves open). *)
-Theorem c16_slotmap_refines_map_partial : forall (c : N) (ops : list mop),
-  Forall2 obs_rel (sm_run (sm_new c) ops) (smap_run true (smap_new c) ops).
+(* For every capacity (0 included) and every operation sequence over insert / insert_at /
+   remove / get / contains / next_free_key / iteration / len / container drop (keys out of
+   range included), the concrete representation (idx_to_data, doubly linked free list with head,
+   data, data_next_free_index ring queue, len) returns exactly what the finite-map reference
+   returns; drop logs agree as multisets (they are equal lists except at container drop, whose
+   order the reference leaves open). *)
+Theorem c16_slotmap_refines_map_full : forall (c : N) (ops : list mop),
+  Forall2 obs_rel (sm_run (sm_new c) ops) (smap_run (smap_new c) ops).
 Proof. exact sm_refines_map. Qed.
-Check c16_slotmap_refines_map_partial : forall (c : N) (ops : list mop),
-  Forall2 obs_rel (sm_run (sm_new c) ops) (smap_run true (smap_new c) ops).
-Print Assumptions c16_slotmap_refines_map_partial.
+Check c16_slotmap_refines_map_full : forall (c : N) (ops : list mop),
+  Forall2 obs_rel (sm_run (sm_new c) ops) (smap_run (smap_new c) ops).
+Print Assumptions c16_slotmap_refines_map_full.
 
-(* ... and the reference with deviations IS the reference of the property on every call with
-   capacity > 0 whose get/contains key is in range. *)
-Theorem c16_slotmap_dev_agree : forall s o, dev_free s o -> smap_step true s o = smap_step false s o.
-Proof. exact smap_dev_agree. Qed.
-Print Assumptions c16_slotmap_dev_agree.
-Example c16_slotmap_dev_agree_nonvacuous : dev_free (smap_new 2) (MGet 1) /\ dev_free (smap_new 2) (MInsert 5).
-Proof. split; split; cbn; try exact I; reflexivity. Qed.
-Print Assumptions c16_slotmap_dev_agree_nonvacuous.
+(* regression histories of the former deviations (capacity 0; keys >= capacity), fixed in /repo *)
+Theorem c16_slotmap_regression_cap0 :
+  map fst (sm_run (sm_new 0) [MInsert 1; MNextFree; MGet 0; MContains 0; MRemove 0; MInsertAt 0 2]) =
+  [OO None; OO None; OO None; OB false; OO None; OB false].
+Proof. exact sm_regression_cap0. Qed.
+Print Assumptions c16_slotmap_regression_cap0.
+Theorem c16_slotmap_regression_oob :
+  map fst (sm_run (sm_new 1) [MGet 1; MContains 1; MGet 7]) = [OO None; OB false; OO None].
+Proof. exact sm_regression_oob. Qed.
+Print Assumptions c16_slotmap_regression_oob.
 
-(* The representation invariant, for every reachable state of every capacity > 0: the free list
+(* The representation invariant, for every reachable state of every capacity: the free list
    from the head is a duplicate-free doubly linked path covering exactly the keys whose
    idx_to_data is INVALID; occupied entries have both links INVALID; data_next_free_index holds
    exactly the unused data slots (no duplicates, as many as there are free keys); occupied keys
    point to pairwise distinct data slots holding the finite map's value; len = number of
    occupied keys. *)
-Theorem c16_slotmap_invariant : forall c m s, (0 < c)%N -> mreach c m s ->
+Theorem c16_slotmap_invariant : forall c m s, mreach c m s ->
   path (flist m) None (fhead m) (mfree s) /\ NoDup (mfree s) /\
   (forall k, In k (mfree s) <-> (k < c)%N /\ geto (i2d m) k = None) /\
   (forall k, (k < c)%N -> geto (i2d m) k <> None -> nthf (flist m) k = fl0) /\
@@ -132,16 +121,16 @@ Theorem c16_slotmap_invariant : forall c m s, (0 < c)%N -> mreach c m s ->
 Proof. exact sm_invariant. Qed.
 Print Assumptions c16_slotmap_invariant.
 Example c16_slotmap_invariant_nonvacuous :
-  mreach 2 (fst (fst (sm_step (sm_new 2) (MInsertAt 1 7)))) (fst (fst (smap_step true (smap_new 2) (MInsertAt 1 7)))).
+  mreach 2 (fst (fst (sm_step (sm_new 2) (MInsertAt 1 7)))) (fst (fst (smap_step (smap_new 2) (MInsertAt 1 7)))).
 Proof. apply mreachS, mreach0. Qed.
 Print Assumptions c16_slotmap_invariant_nonvacuous.
 
 (* insert returns a key that was free (it never overwrites a live entry and drops nothing), sets
    exactly that key, and fails -- dropping exactly the rejected value, changing nothing -- only
    when every key is occupied. *)
-Theorem c16_slotmap_insert_fresh : forall c m s v, (0 < c)%N -> mreach c m s ->
+Theorem c16_slotmap_insert_fresh : forall c m s v, mreach c m s ->
   let '(m', ob, d) := sm_step m (MInsert v) in
-  let '(s', _, _) := smap_step true s (MInsert v) in
+  let '(s', _, _) := smap_step s (MInsert v) in
   match ob with
   | OO (Some k) => (k < c)%N /\ mget s k = None /\ d = [] /\ mget s' k = Some v /\
                    (forall j, j <> k -> mget s' j = mget s j)
@@ -150,99 +139,29 @@ Theorem c16_slotmap_insert_fresh : forall c m s v, (0 < c)%N -> mreach c m s ->
   end.
 Proof. exact sm_insert_fresh. Qed.
 Print Assumptions c16_slotmap_insert_fresh.
+Example c16_slotmap_insert_fresh_nonvacuous : mreach 0 (sm_new 0) (smap_new 0) /\ mreach 3 (sm_new 3) (smap_new 3).
+Proof. split; constructor. Qed.
+Print Assumptions c16_slotmap_insert_fresh_nonvacuous.
 
-(* Drop exactly once: over any operation sequence on a slot map of capacity > 0, the values that
-   entered are -- as multisets -- the values handed back by remove, plus the values dropped
-   inside calls (overwritten by insert_at, rejected by a failing insert / insert_at), plus the
-   drop log of the container's Drop taken on the concrete state reached by the same operations. *)
-Theorem c16_slotmap_drop_once : forall c ops, (0 < c)%N -> Forall (fun o => o <> MDrop) ops ->
+(* Drop exactly once: over any operation sequence on a slot map of any capacity (0 included), the
+   values that entered are -- as multisets -- the values handed back by remove, plus the values
+   dropped inside calls (overwritten by insert_at, rejected by a failing insert / insert_at),
+   plus the drop log of the container's Drop taken on the concrete state reached by the same
+   operations. *)
+Theorem c16_slotmap_drop_once : forall c ops, Forall (fun o => o <> MDrop) ops ->
   let '(ins, outs, sf) := smap_totals (smap_new c) ops in
   Permutation ins (outs ++ sm_drop_log (sm_final (sm_new c) ops)).
 Proof. exact sm_drop_once. Qed.
 Print Assumptions c16_slotmap_drop_once.
 Example c16_slotmap_drop_once_nonvacuous :
-  (0 < 2)%N /\ Forall (fun o => o <> MDrop) [MInsert 5; MInsertAt 0 6; MRemove 1].
-Proof. split; [reflexivity|]. repeat constructor; discriminate. Qed.
+  Forall (fun o => o <> MDrop) [MInsert 5; MInsertAt 0 6; MRemove 1].
+Proof. repeat constructor; discriminate. Qed.
 Print Assumptions c16_slotmap_drop_once_nonvacuous.
 
 (* ------------------------------------------------------------------------------------------
-   string/mod.rs (trait String; StaticString, PolymorphicString, RelocatableString).
-   NOT proved: the refinement of the byte-list reference by the buffer model (Str.v str_step vs
-   sstr_step true); that tie is the G3 correspondence only.  Proved: *)
-
-(* The clause as stated is false of the faithful model (three independent witnesses, each
-   replayed on the real code and reported as a candidate defect). *)
-Definition c16_str_refines_full : Prop := str_refines_full.
-Theorem c16_str_refines_refuted : ~ c16_str_refines_full.
-Proof. exact str_refines_refuted. Qed.
-Print Assumptions c16_str_refines_refuted.
-Theorem c16_str_retain_witness :
-  str_run (str_new FPoly 1) [SPush 97; SRetain [97%N]; SBytes] = [OUnit; OUnit; OL []] /\
-  sstr_run false (sstr_new FPoly 1) [SPush 97; SRetain [97%N]; SBytes] = [OUnit; OUnit; OL [97%N]].
-Proof. exact str_retain_witness. Qed.
-Print Assumptions c16_str_retain_witness.
-Theorem c16_str_static_zero_len_witness :
-  str_run (str_new FStatic 1) [SPush 97; SStripPrefix []] = [OUnit; OP] /\
-  sstr_run false (sstr_new FStatic 1) [SPush 97; SStripPrefix []] = [OUnit; OB true].
-Proof. exact str_static_zero_len_witness. Qed.
-Print Assumptions c16_str_static_zero_len_witness.
-Theorem c16_str_nul_witness :
-  str_run (str_new FReloc 1) [SNul] = [ON POISON] /\
-  str_run (str_new FPoly 1) [SPush 97; SNul] = [OUnit; ON POISON] /\
-  sstr_run false (sstr_new FPoly 1) [SPush 97; SNul] = [OUnit; ON 0%N].
-Proof. exact str_nul_witness. Qed.
-Print Assumptions c16_str_nul_witness.
-
-(* partial: a call failing with InsertWouldExceedCapacity / InvalidCharacter leaves the whole
-   record (len, capacity, buffer) unchanged, for every state and every operation *)
-Theorem c16_str_error_unchanged_partial : forall s o s' e, str_step s o = (s', OErr e) -> s' = s.
-Proof. exact str_error_unchanged. Qed.
-Print Assumptions c16_str_error_unchanged_partial.
-Example c16_str_error_unchanged_partial_nonvacuous :
-  str_step (str_new FPoly 1) (SPush 0) = (str_new FPoly 1, OErr EInvalidCharacter) /\
-  str_step (str_new FPoly 0) (SPush 97) = (str_new FPoly 0, OErr EExceedsCapacity).
-Proof. split; reflexivity. Qed.
-Print Assumptions c16_str_error_unchanged_partial_nonvacuous.
-
-(* partial (byte rule): whenever insert_bytes accepts, the index was inside, the result fits and
-   every byte is in 1..127; on the reference acceptance is equivalent to that, for all byte
-   values (0, >= 128 and beyond included) *)
-Theorem c16_str_bytes_accept_sound : forall s idx l s',
-  str_insert_bytes s idx l = Val (s', OUnit) ->
-  (idx <= slen s)%N /\ (slen s + lenN l <= scap s)%N /\ Forall (fun b => (1 <= b <= 127)%N) l /\ slen s' = (slen s + lenN l)%N.
-Proof. exact str_insert_accept_sound. Qed.
-Print Assumptions c16_str_bytes_accept_sound.
-Example c16_str_bytes_accept_sound_nonvacuous :
-  exists s', str_insert_bytes (str_new FStatic 3) 0 [97%N; 98%N] = Val (s', OUnit).
-Proof. eexists. reflexivity. Qed.
-Print Assumptions c16_str_bytes_accept_sound_nonvacuous.
-Theorem c16_str_bytes_reference : forall s i l,
-  snd (sins s i l) = OUnit <->
-  (i <= lenN (sbytes s))%N /\ (lenN (sbytes s) + lenN l <= sscap s)%N /\ Forall (fun b => (1 <= b <= 127)%N) l.
-Proof. exact sins_accept_iff. Qed.
-Print Assumptions c16_str_bytes_reference.
+   string/mod.rs (trait String; StaticString, PolymorphicString, RelocatableString). *)
+(*STR-SECTION*)
 
 (* ------------------------------------------------------------------------------------------
-   flatmap.rs (MetaFlatMap over the slot map).  NOT proved: the refinement of the
-   association-list reference (tied by the G3 correspondence only).  Proved: *)
-Definition c16_flatmap_refines_full : Prop := fm_refines_full.
-Theorem c16_flatmap_refines_refuted : ~ c16_flatmap_refines_full.   (* FlatMap::new(0).insert panics *)
-Proof. exact fm_refines_refuted. Qed.
-Print Assumptions c16_flatmap_refines_refuted.
-
-(* partial: KeyAlreadyExists and IsFull leave the whole concrete record unchanged (every state,
-   every operation), and likewise the reference *)
-Theorem c16_flatmap_error_unchanged_partial : forall m o m' e d, fm_step m o = (m', OErr e, d) -> m' = m.
-Proof. exact fm_error_unchanged. Qed.
-Print Assumptions c16_flatmap_error_unchanged_partial.
-Example c16_flatmap_error_unchanged_partial_nonvacuous :
-  exists m d, fm_step m (FInsert 3 9) = (m, OErr EKeyExists, d).
-Proof. exists (fst (fst (fm_step (sm_new 2) (FInsert 3 8)))). eexists. vm_compute. reflexivity. Qed.
-Print Assumptions c16_flatmap_error_unchanged_partial_nonvacuous.
-Theorem c16_flatmap_reference_error_unchanged : forall dev s o s' e d, fmap_step dev s o = (s', OErr e, d) -> s' = s.
-Proof. exact fmap_error_unchanged. Qed.
-Print Assumptions c16_flatmap_reference_error_unchanged.
-Example c16_flatmap_reference_error_unchanged_nonvacuous :
-  fmap_step false (fmap_new 0) (FInsert 3 9) = (fmap_new 0, OErr EIsFull, [(KTAG + 3)%N; 9%N]).
-Proof. reflexivity. Qed.
-Print Assumptions c16_flatmap_reference_error_unchanged_nonvacuous.
+   flatmap.rs (MetaFlatMap over the slot map). *)
+(*FLAT-SECTION*)
